@@ -218,6 +218,18 @@ def check_reductions(res, case, arr_vals, shape, sub, layout="C"):
                         res.violation(f"reduce|{name}", f"{name} = {float(g)!r}, exact {float(want)!r} (lane {[float(x) for x in lane]}) "
                                       f"[{s2}]", case, s2)
                         break
+        # --- keepdims=True: the same values with the reduced axes kept as length 1
+        for name in ("min", "max", "ptp"):
+            try:
+                plain = getattr(P, name)(axis) if axis is not None else getattr(P, name)()
+                kd = getattr(P, name)(axis=axis, keepdims=True)
+            except Exception as e:
+                res.violation(f"reduce|{name}(keepdims)|raised", f"{type(e).__name__}: {e} [{s2}]", case, s2)
+                continue
+            res.transitions += 1
+            # (the statement fixes values, not the shape convention of keepdims: only values are compared)
+            if type(kd) is not Phase or ex(kd) != ex(plain):
+                res.violation(f"reduce|{name}(keepdims)", f"keepdims=True gives other values than the plain reduction [{s2}]", case, s2)
         # --- sort / argsort (axis None flattens)
         for name in ("sort", "argsort"):
             try:
